@@ -231,7 +231,7 @@ Section Batch.
     set (pend' := fold_left (fun p xy => remove (fst xy) p) xys (pend s)).
     set (points := map fst data').
     set (comb := merge_sorted (length pend' + length points) pend' points).
-    set (bx := (match comb with x :: _ => x | [] => zero end, L1D.last_num comb zero)).
+    set (bx := (L1D.pmin ltb (lo P) (match comb with x :: _ => x | [] => zero end), L1D.pmax ltb (hi P) (L1D.last_num comb zero))).
     match goal with |- context [L1D.mk data' pend' points comb [] [] bx ?by' ?sx' ?sy' ?sy' ?sx'] =>
       set (s1 := L1D.mk data' pend' points comb [] [] bx by' sx' sy' sy' sx') end.
     set (l := fold_left (fun m iv => lset iv (get_loss s1 (fst iv) (snd iv)) m) (L1D.pairs points) []).
